@@ -393,7 +393,30 @@ struct TokenSpace {
       return {};
    }
 };
-PrefixSpace g_prefix, g_prefixq; TokenSpace g_token, g_tokenq;
+/// every valid GM2CalcConfig combination (5 formats x 3 loop orders x 2^5 switches = 480) appended to a shipped file
+struct ConfigSpace {
+   std::vector<size_t> files; size_t total = 0;
+   void build(bool quick)
+   {
+      for (size_t f = 0; f < g_corpus.files.size(); ++f) {
+         const std::string& r = g_corpus.files[f].rel;
+         if (quick && r.find("/input/example.") == std::string::npos && r.find("problems_negative_soft_mass") == std::string::npos &&
+             r.find("thdm_contradictory_input") == std::string::npos && r.find("problems_throw_me2_convergence") == std::string::npos) continue;
+         files.push_back(f);
+      }
+      total = files.size() * 480;
+   }
+   std::vector<std::string> plan(size_t idx) const
+   {
+      if (idx >= total) return {};
+      const size_t f = files[idx / 480]; size_t c = idx % 480;
+      const size_t fmt = c % 5; c /= 5; const size_t loop = c % 3; c /= 3;
+      std::string l = "cfg " + std::to_string(fmt) + " " + std::to_string(loop);
+      for (int b = 0; b < 5; ++b) l += " " + std::to_string((c >> b) & 1);
+      return {"base corpus " + g_corpus.files[f].rel, l};
+   }
+};
+PrefixSpace g_prefix, g_prefixq; TokenSpace g_token, g_tokenq; ConfigSpace g_config, g_configq;
 
 std::vector<std::string> plan_of(const std::string& kind, uint64_t seed, uint64_t idx, std::string* mode)
 {
@@ -404,6 +427,8 @@ std::vector<std::string> plan_of(const std::string& kind, uint64_t seed, uint64_
    if (kind == "PREFIXQ") return g_prefixq.plan(idx);
    if (kind == "TOKEN") return g_token.plan(idx);
    if (kind == "TOKENQ") return g_tokenq.plan(idx);
+   if (kind == "CONFIG") return g_config.plan(idx);
+   if (kind == "CONFIGQ") return g_configq.plan(idx);
    if (kind == "CORPUS") { if (idx < 2 * g_corpus.files.size()) return {"base corpus " + g_corpus.files[idx / 2].rel, std::string("src ") + ((idx & 1) ? "path" : "stdin")}; }
    return {};
 }
@@ -419,7 +444,7 @@ int main(int argc, char** argv)
    g_fsdir = argv[3];
    mkdir(g_fsdir.c_str(), 0755);
    if (g_corpus.files.empty()) { std::printf("NOTE empty corpus\n"); }
-   g_prefix.build(false); g_prefixq.build(true); g_token.build(false); g_tokenq.build(true);
+   g_prefix.build(false); g_prefixq.build(true); g_token.build(false); g_tokenq.build(true); g_config.build(false); g_configq.build(true);
 
    // calibrate the logical step budget on the intact corpus of the current tree
    uint64_t max_steps = 0;
@@ -434,7 +459,7 @@ int main(int argc, char** argv)
    while (sim::read_line(line)) {
       const auto t = sim::split(line);
       if (t.empty()) continue;
-      if (t[0] == "RUNS" || t[0] == "LIGHT" || t[0] == "PREFIX" || t[0] == "PREFIXQ" || t[0] == "TOKEN" || t[0] == "TOKENQ" || t[0] == "CORPUS") {
+      if (t[0] == "RUNS" || t[0] == "LIGHT" || t[0] == "PREFIX" || t[0] == "PREFIXQ" || t[0] == "TOKEN" || t[0] == "TOKENQ" || t[0] == "CONFIG" || t[0] == "CONFIGQ" || t[0] == "CORPUS") {
          const bool rnd = t[0] == "RUNS" || t[0] == "LIGHT";
          if (t.size() < (rnd ? 4u : 3u)) { std::printf("NOTE malformed command: %s\nDONE\n", line.c_str()); continue; }
          const uint64_t seed = rnd ? std::strtoull(t[1].c_str(), nullptr, 0) : 0;
@@ -458,6 +483,7 @@ int main(int argc, char** argv)
          g_hash_all = t.size() > 1 && t[1] != "0";
          std::printf("DONE\n");
       } else if (t[0] == "COUNT") {
+         std::printf("COUNT CONFIG %zu\nCOUNT CONFIGQ %zu\n", g_config.total, g_configq.total);
          std::printf("COUNT PREFIX %zu\nCOUNT PREFIXQ %zu\nCOUNT TOKEN %zu\nCOUNT TOKENQ %zu\nCOUNT CORPUS %zu\nBUDGET %" PRIu64 " %" PRIu64 "\nDONE\n",
                      g_prefix.total, g_prefixq.total, g_token.total, g_tokenq.total, 2 * g_corpus.files.size(), g_budget, max_steps);
       } else if (t[0] == "DUMP" && t.size() >= 4) {
